@@ -73,6 +73,7 @@ def run(ctx: Context) -> None:
     ctx.rule('R17.6', "helpers of the save path: the time variable is found among all variables, fill suppression visits every variable, and the default calendar is the proleptic Gregorian one", floor=4)
     from . import infra as _infra
     _infra.lookup_namespace(ctx, 'R17.6', ['time_coordinate'])
+    _infra.constant_name_lookups(ctx, 'R17.6', ['time_coordinate'])
     _infra.all_variables_visited(ctx, 'R17.6')
     _infra.default_calendar(ctx, 'R17.6')
     ctx.assume("cftime 1.6.5 accepts a colon separated time zone designator only as [+-]HH:MM (checked once against the installed version; '+8:00' and '-0:30' are read as offset 0)")
@@ -385,5 +386,6 @@ VARIANTS = [
     V('C17', 'fill-only-floats', _U, "            current_dtype == promoted_dtype\n", "            numpy.issubdtype(current_dtype, numpy.floating)\n", 'R17.4'),
     V('C17', 'time-fix-before-write', _U, "    dataset.to_netcdf(path, **kwargs)\n    if time_variable is not None:\n        fix_time_units_for_ems(path, data_array_to_name(dataset, time_variable))", "    if time_variable is not None:\n        fix_time_units_for_ems(path, data_array_to_name(dataset, time_variable))\n    dataset.to_netcdf(path, **kwargs)", 'R17.4'),
     V('C17', 'handler-narrowed', _B, "        try:\n            time_variable = self.time_coordinate\n        except KeyError:", "        try:\n            time_variable = self.time_coordinate\n        except ValueError:", 'R17.5'),
-    V('C17', 'shoc-raises-keyerror', 'src/emsarray/conventions/shoc.py', "            raise NoSuchCoordinateError(\n                f\"SHOC dataset did not have expected time coordinate {name!r}\")\n\n    def drop_geometry", "            raise ValueError(\n                f\"SHOC dataset did not have expected time coordinate {name!r}\")\n\n    def drop_geometry", 'R17.5'),
+    V('C17', 'shoc-raises-keyerror', 'src/emsarray/conventions/shoc.py', "            raise NoSuchCoordinateError(\n                f\"SHOC dataset did not have expected time coordinate {name!r}\")\n        return self.dataset[name]\n\n    def drop_geometry", "            raise ValueError(\n                f\"SHOC dataset did not have expected time coordinate {name!r}\")\n        return self.dataset[name]\n\n    def drop_geometry", 'R17.5'),
+    V('C17', 'shoc-simple-phantom-time', 'src/emsarray/conventions/shoc.py', "        name = 'time'\n        # `dataset[name]` would make up a variable for a dimension of that name\n        if name not in self.dataset.variables:\n            raise NoSuchCoordinateError(\n                f\"SHOC dataset did not have expected time coordinate {name!r}\")\n        return self.dataset[name]", "        name = 'time'\n        try:\n            return self.dataset[name]\n        except KeyError:\n            raise NoSuchCoordinateError(\n                f\"SHOC dataset did not have expected time coordinate {name!r}\")", 'R17.6'),
 ]
